@@ -19,6 +19,16 @@ CHECKS = {
             "TLA+ spec + TLC; spec->code behaviour replay and code->spec trace validation"),
 }
 
+CHECKS["C01"] = (
+    "model_checking",
+    "QuerySem.tla gives the documented denotation of every public query type over an index of analysed "
+    "documents; TLC (QueryCheck.tla) evaluates it on each recorded case and judges what every access path of "
+    "the real Searcher returned on real multi-segment indexes with deletions built through real writers.",
+    "DESIGN.md 4.6, 5 (C01)",
+    "Trusted: TLC, the concretisation tables in harness/world.py (letters, fields, analyzer with gap stop word), "
+    "stored keys used to read back docnum order. Regex queries only via glob translation; not arbitrary regexes.",
+    "TLA+ denotational spec evaluated by TLC as oracle over recorded searches (code->spec)")
+
 NOT_YET = {}
 
 
